@@ -39,6 +39,7 @@ XONSH_PARTS = [
     ("backtick", "y = `.*\\.py`\n"), ("backtick", "z = g`*.py` + @foo`bar`\n"),
     ("fstring", 's = f"""l1\nl2\nl3\n{a}!"""\n'), ("fstring", "print(f'{v=}', f'{w = !r:>4}')\n"), ("fstring", "t = f'''{\nq\n=}'''\n"), ("fstring", "u = pf'{h}/{v=}'\n"),
     ("fstring", 'if c:\n    y = f"{a \\\n}"\n'), ("fstring", "while t:\n    z = f\'\'\'{b + \\\n c:>4}\'\'\'\n"), ("fstring", 'def f():\n    return f"{a \\\n + b}"\n'), ("fstring", "for i in j:\n    print(f'{i\\\n!r}', f\"{k:{w}\\\n}\")\n"),
+    ("env", "ﬁle = 1\n"), ("subproc", "$(cat ﬁle µ)\n"), ("subproc", "r = ![ls ｆｏｏ.txt ﬁle]\n"), ("env", "µ = ﬁle + 1\n"), ("call-macro", "f!(ﬁle, µ)\n"),
     ("boolop", "a && b || c\n"), ("boolop", "r = $(x) && ![y]\n"),
     ("bare-cmd", "ls -la\n") if False else ("subproc", "print($(pwd))\n"),
 ]
